@@ -9,22 +9,23 @@ def us(n):   # n = longest string any path can build (+2): symbolic-length copie
     return {'bcmp': n, 'strlen': n, 'memcmp': n, 'memchr': n + 2, 'verif_memset': 140, 'verif_memcpy': n, 'verif_memmove': n, 'vs_copy': n, 'vs_move': n}
 US = us(8)
 HARNESSES = {}; QUERIES = []
-for (kl, vl, tier) in ((1, 0, 'quick'), (1, 1, 'quick'), (1, 2, 'quick'), (2, 1, 'quick'), (2, 2, 'thorough'), (1, 3, 'thorough'), (3, 1, 'thorough'), (2, 3, 'thorough')):
+# object-level Set -> ToHeader -> FromHeader round trips: measured (rounds 1 and 2) not to finish symbolic execution in 400 s even for a 1-byte key - parked, not registered
+for (kl, vl, tier) in ():
     tag = 'c15_rt_%d_%d' % (kl, vl)
     HARNESSES[tag] = h(kl, vl)
     QUERIES.append(dict(name='roundtrip_k%d_v%d' % (kl, vl), harness=tag, entry='h_roundtrip', unwind=3 * (kl + vl) + 4, unwindset=us(3 * (kl + vl) + 3), rec_unwind=3, tier=tier, timeout=1200, mem_gb=24,
                         shape='Set(key,value) on the empty baggage -> ToHeader -> FromHeader; key of exactly %d and value of exactly %d characters over a 16-letter alphabet (unreserved, space, = , ; %% + " / !)' % (kl, vl)))
-for ns in (0, 1, 2, 3):
+for ns in (1, 2):
     tag = 'c15_n%d' % ns
     HARNESSES[tag] = h(nstart=ns)
     tier = 'quick' if ns == 2 else 'thorough'
     for e, sh in (('h_set', 'Set(key,value) with 1-byte key/value over an 8-letter alphabet (printable, separators, 0x1f, 0x7f; present and absent keys)'), ('h_delete', 'Delete(key) with a 1-byte key over the alphabet'),
-                  ('h_list_roundtrip', 'ToHeader -> FromHeader of the whole list')):
+                  ):
         QUERIES.append(dict(name='%s_n%d' % (e[2:], ns), harness=tag, entry=e, unwind=4 * ns + 6, unwindset=US, rec_unwind=3, tier='thorough' if e == 'h_list_roundtrip' and ns != 1 else ('quick' if e == 'h_list_roundtrip' else tier), timeout=1200, mem_gb=24,
                             shape='%d distinct printable 1-byte entries; %s' % (ns, sh)))
-for L in range(0, 7):  # noqa
+for L in range(0, 3):  # noqa  (length 3 and above: no verdict in 400 s)
     HARNESSES['c15_any%d' % L] = h(length=L)
-    QUERIES.append(dict(name='from_any_header_len%d' % L, harness='c15_any%d' % L, entry='h_from_any_header', unwind=L + 2, unwindset=us(L + 2), rec_unwind=3, tier='quick' if L in (0, 3) else 'thorough', timeout=1200, mem_gb=24,
+    QUERIES.append(dict(name='from_any_header_len%d' % L, harness='c15_any%d' % L, entry='h_from_any_header', unwind=L + 2, unwindset=us(L + 2), rec_unwind=3, tier='quick' if L in (0,) else 'thorough', timeout=1200, mem_gb=24,
                         shape='every header byte string of length %d (all 256 byte values, exactly sized buffer)' % L))
 
 # ---- leaf kernels (round 2): UrlEncode / UrlDecode directly, exact lengths
@@ -50,10 +51,12 @@ for j, txt in enumerate(('empty header', 'a member without =', 'a member with em
     HARNESSES['c15_bx%d' % j] = hc(2, j)
     QUERIES.append(dict(name='baggage_extract_nothing_valid_%d' % j, harness='c15_bx%d' % j, entry='h_baggage_extract_nothing_valid', unwind=8, unwindset=us(8), rec_unwind=3, tier='quick' if j in (0, 1) else 'thorough', timeout=900,
                         shape='BaggagePropagator::Extract, context already holding a value under the baggage key, header = %s' % txt))
-BOUNDS = ['round trip: one entry, key 1..3 and value 0..3 characters over a 16-letter alphabet covering every class UrlEncode/UrlDecode/the tokenizer distinguish',
-          'Set/Delete/list round trip: 0..3 entries with 1-byte keys and values', 'arbitrary headers of every length 0..6 (quick: 0, 3), exactly sized buffers']
-OUTSIDE = ['the 180-member, 4096-byte and 8192-byte limits (not exercised: would need scaled constants; FromHeader at small lengths only)', 'BaggagePropagator / CompositePropagator / Context plumbing (virtual carriers, Context copies) - not encoded',
-           'keys/values longer than 3 characters; characters outside the alphabet in the round trip (UrlEncode is per-character, so the alphabet has one representative per branch)']
-TRUSTED = ['alphabet representatives stand for their character class in UrlEncode/UrlDecode (per-character code, read)']
+BOUNDS = ['UrlDecode: every byte string of each length 0..4 (quick: 0, 1, 3); UrlEncode->UrlDecode round trip: every printable string of each length 0..3 (quick: 1, 2)',
+          'Baggage::Set / Delete on 1..2 distinct printable 1-byte entries with 1-byte key/value over an 8-letter alphabet', 'Baggage::FromHeader on every byte string of length 0..2 (quick: 0), exactly sized buffers',
+          'CompositePropagator over 2..3 mock propagators; BaggagePropagator::Extract on four concrete headers that hold no valid member']
+OUTSIDE = ['the object-level header round trip Set -> ToHeader -> FromHeader (per-character std::string building inside the GetAllEntries callback: symbolic execution does not finish in 400 s even for a 1-byte key; the encoder/decoder pair itself is decided at leaf level)',
+           'FromHeader on arbitrary headers of 3 or more bytes; the ;metadata pass-through; the 180-member, 4096-byte and 8192-byte limits', 'BaggagePropagator::Inject and Extract of a valid header into the context', 'GlobalTextMapPropagator singleton',
+           'keys/values longer than the stated lengths']
+TRUSTED = ['C-locale isalnum/isdigit/toupper tables (models/libc.c)']
 ASSUMPTIONS = ['std::shared_ptr / nostd::shared_ptr release does not run disposers (Baggage objects are leaked; values, not lifetimes, are the subject)', 'operator new[] allocates a fixed 64 bytes (larger requests are reported)',
-               'values contain no "," after the first ";" (quantifier of the property)']
+               'std::string stays within the 15-byte SSO buffer in every query (a heap request is reported as a bound violation, never ignored)']
